@@ -42,7 +42,13 @@ func checkFirstByte(first byte, v Version, d Direction) (Type, error) {
 	}
 	switch t {
 	case PUBLISH:
-		// checked in the body decoder (QoS 3, DUP with QoS 0)
+		if flags&0x06 == 0x06 {
+			return 0, &DecodeError{Kind: Malformed, Type: t, Msg: "QoS 3"}
+		}
+		if flags&0x0e == 0x08 {
+			// [MQTT-3.3.1-2]: DUP must be 0 for all QoS 0 messages
+			return 0, &DecodeError{Kind: ProtocolError, Type: t, Msg: "DUP set on a QoS 0 PUBLISH"}
+		}
 	case PUBREL, SUBSCRIBE, UNSUBSCRIBE:
 		f := flags
 		if v == V31 {
@@ -184,12 +190,7 @@ func decodeBody(p *Packet, c *cursor, flags byte, v Version, d Direction) error 
 		p.Dup = flags&0x08 != 0
 		p.QoS = flags >> 1 & 3
 		p.Retain = flags&0x01 != 0
-		if p.QoS == 3 {
-			return c.errf(Malformed, "QoS 3")
-		}
-		if p.QoS == 0 && p.Dup {
-			return c.errf(ProtocolError, "DUP set on a QoS 0 PUBLISH")
-		}
+		// QoS 3 and DUP with QoS 0 were rejected by checkFirstByte
 		if p.Topic, err = c.str("topic name"); err != nil {
 			return err
 		}
